@@ -7,9 +7,10 @@ from the AST, structural facts of send_commands) + correspondence of the model a
 oracle: decided on the device's own received-bytes / executed-line log, independent of the model."""
 import json
 import os
+import time
 
 from . import common
-from .common import coq_bool, coq_bytes, coq_list
+from .common import coq_bool, coq_list
 
 LEVEL = "proof"
 SOURCES = ["scrapli/driver/generic/sync_driver.py", "scrapli/driver/generic/async_driver.py",
@@ -95,6 +96,7 @@ def run_connection(scn, workdir):
     d = make_driver(kind, stack, dev, tuple(scn.get("policy", ("whole",))))
     run = Runner(stack)
     navs = []
+    nav_open = [0]                        # set when the device went silent inside acquire_priv
     if kind != "generic":
         orig = d.acquire_priv
         if stack == "sync":
@@ -102,6 +104,9 @@ def run_connection(scn, workdir):
                 w, l = len(d.transport.writes), len(dev.log)
                 try:
                     return orig(desired_priv=desired_priv)
+                except Starved:
+                    nav_open[0] = 1
+                    raise
                 finally:
                     navs.append((w, len(d.transport.writes), desired_priv, l, len(dev.log)))
         else:
@@ -109,12 +114,18 @@ def run_connection(scn, workdir):
                 w, l = len(d.transport.writes), len(dev.log)
                 try:
                     return await orig(desired_priv=desired_priv)
+                except Starved:
+                    nav_open[0] = 1
+                    raise
                 finally:
                     navs.append((w, len(d.transport.writes), desired_priv, l, len(dev.log)))
         d.acquire_priv = acquire_priv
     obs = []
     try:
-        run.call(d.open)
+        try:
+            run.call(d.open)
+        except Starved:                    # (a BaseException) the session never got as far as the first op: fail closed
+            raise RuntimeError("the driver starved while opening the session (before any op): device received %r" % bytes(dev.rx[-80:]))
         if kind in ("cisco_nxos", "arista_eos"):
             d.register_configuration_session(session_name=SESSION)
         for k, op in enumerate(scn["ops"]):
@@ -122,6 +133,7 @@ def run_connection(scn, workdir):
             outs = list(op["outs"]) + [""] * (len(lines) - len(op["outs"]))
             state.update(lines=lines, outs=outs, i=0)
             del navs[:]
+            nav_open[0] = 0
             w0, l0, r0 = len(d.transport.writes), len(dev.log), len(dev.rx)
             cur0 = d._current_priv_level.name if kind != "generic" else ""
             kw = {}
@@ -143,7 +155,8 @@ def run_connection(scn, workdir):
                 arg = op["lines"][0]
             else:
                 arg = list(op["lines"])
-            o = {"exc": None, "flags": [], "results": [], "inputs": [], "multi_failed": None, "merged": None, "starved": False}
+            o = {"exc": None, "flags": [], "results": [], "inputs": [], "multi_failed": None, "merged": None, "starved": False,
+                 "nav_starved": False}
             try:
                 res = run.call(getattr(d, name), arg, **kw)
                 if name == "send_command":
@@ -156,7 +169,7 @@ def run_connection(scn, workdir):
                     o["inputs"] = [r.channel_input for r in res]
                     o["multi_failed"] = res.failed
             except Starved:
-                o["exc"], o["starved"] = "Starved", True
+                o["exc"], o["starved"], o["nav_starved"] = "Starved", True, nav_open[0] > 0
             except Exception as e:  # noqa
                 o["exc"] = type(e).__name__
             writes = d.transport.writes[w0:]
@@ -215,12 +228,74 @@ def is_transition(kind, mode, raw):
     return bool(s and mode == "privilege_exec" and line.startswith(s))
 
 
+def planned(kind, op, o):
+    """which lines must be sent and which responses must be failed, from the scenario's own outputs"""
+    lines = op_lines(op)
+    n = len(lines)
+    outs = list(op["outs"]) + [""] * (n - len(op["outs"]))
+    M = call_markers(kind, op, o)
+    stop, eager = (op["stop"], op["eager"]) if op["op"] != "send_command" else (False, False)
+    sent, exp_flags = [], []
+    for i, l in enumerate(lines):
+        res = "" if (eager and i < n - 1) else outs[i]
+        f = any(m in res for m in M)
+        sent.append(l)
+        exp_flags.append(f)
+        if stop and f:
+            break
+    return sent, exp_flags, M
+
+
+def where(sent, k):
+    """(line index, offset in that line, length of that line + return) of byte offset k of the wire"""
+    pos = 0
+    for j, l in enumerate(sent):
+        ln = len(l.encode("utf-8")) + 1
+        if k < pos + ln:
+            return j, k - pos, ln
+        pos += ln
+    return len(sent), 0, 0
+
+
+def oracle_starved(kind, op, o):
+    """the call never came back: the driver reads although the (causal, echoing) device has answered everything it
+    received.  The property is decided on what the device HAS received when the driver stalls: it must be
+    the wire image of the lines (then the stall is the reading side's matter, C01/C02/C05), otherwise a line
+    reached the device altered, cut short or without its return."""
+    if o.get("nav_starved"):
+        return []                          # inside privilege navigation: C03/C04's subject, reported as a harness failure
+    sent, _, _ = planned(kind, op, o)
+    wr = b"".join(x for k, x in o["events"] if k == "w")
+    want = b"".join(l.encode("utf-8") + b"\n" for l in sent)
+    c = 0
+    while c < len(wr) and c < len(want) and wr[c] == want[c]:
+        c += 1
+    if c < len(wr) and c < len(want):
+        j, off, ln = where(sent, c)
+        return [("delivery-altered", "line %d of %d reached the device altered at byte %d of %d (then the call stalls, the driver waiting "
+                 "for output that never comes): device received %r, the line is %r" % (j, len(sent), off, ln - 1, wr[c - min(c, 20):c + 40], want[c - min(c, 20):c + 40]))]
+    if len(wr) < len(want):
+        j, off, ln = where(sent, len(wr))
+        if off == 0:
+            return [("delivery-stalled", "the driver stopped after %d of %d lines and waits for output the device will never produce; "
+                     "lines from %r on were never written" % (j, len(sent), sent[j][:60]))]
+        if off == ln - 1:
+            return [("return-missing", "line %d of %d (%r) reached the device without its return; the driver waits for output the "
+                     "device will never produce" % (j, len(sent), sent[j][-40:]))]
+        return [("delivery-cut-short", "line %d of %d reached the device cut short: %d of its %d bytes were written (%d characters), then "
+                 "the driver waits for the echo of the rest; device received ...%r" % (
+                     j, len(sent), off, ln - 1, len(sent[j]), wr[-40:]))]
+    return []
+
+
 def oracle(kind, op, o):
     """list of (signature, text) property failures of one observed op ([] = holds)"""
     bad = []
     lines = op_lines(op)
     n = len(lines)
     outs = list(op["outs"]) + [""] * (n - len(op["outs"]))
+    if o.get("starved"):
+        return oracle_starved(kind, op, o)
     if o["exc"] is not None:
         if op.get("expect_exc") and o["exc"] == op["expect_exc"]:
             if any(k == "w" for k, _ in o["events"]) or o["log"]:
@@ -232,17 +307,9 @@ def oracle(kind, op, o):
     if op.get("expect_exc"):
         bad.append(("missing-exception", "expected %s, call returned" % op["expect_exc"]))
         return bad
-    M = call_markers(kind, op, o)
     stop, eager = (op["stop"], op["eager"]) if op["op"] != "send_command" else (False, False)
     # which lines must have been sent, from the scenario's own outputs
-    sent, exp_flags = [], []
-    for i, l in enumerate(lines):
-        res = "" if (eager and i < n - 1) else outs[i]
-        f = any(m in res for m in M)
-        sent.append(l)
-        exp_flags.append(f)
-        if stop and f:
-            break
+    sent, exp_flags, M = planned(kind, op, o)
     tm = target_mode(kind, op)
     # (A) bytes: everything written outside navigation = each sent line once, in order, + one return, + abort step
     wr = b"".join(x for k, x in o["events"] if k == "w")
@@ -252,7 +319,12 @@ def oracle(kind, op, o):
         while j < len(sent) and wr.startswith(b"".join(l.encode("utf-8") + b"\n" for l in sent[:j + 1])):
             j += 1
         kindof = "withheld-or-altered" if len(wr) < len(want) or j < len(sent) else "altered"
-        bad.append(("delivery-" + kindof, "bytes written outside navigation differ from the lines at line %d of %d: wrote %r" % (j, len(sent), wr[:200])))
+        c = 0
+        while c < len(wr) and c < len(want) and wr[c] == want[c]:
+            c += 1
+        _, off, ln = where(sent, c)
+        bad.append(("delivery-" + kindof, "bytes written outside navigation differ from the lines at line %d of %d (byte %d of its %d): "
+                    "wrote ...%r, the lines are ...%r" % (j, len(sent), off, max(ln - 1, 0), wr[c - min(c, 20):c + 60], want[c - min(c, 20):c + 60])))
         return bad
     extra = wr[len(want):]
     # (B) the device's executed-line log: navigation, then the lines in the target mode, then the abort step
@@ -363,6 +435,16 @@ Definition chk (c : case) : bool :=
   | _ => false
   end.
 """
+# the 256 byte values as named constants: Coq reads a name several times faster than a number literal, and the
+# cases with very long lines are dominated by reading the bytes in
+HEADER += "".join("Definition xb%d : N := %d.\n" % (i, i) for i in range(256))
+_XB = ["xb%d" % i for i in range(256)]
+
+
+def coq_bytes(b):                                          # (shadows common.coq_bytes: same value, named bytes)
+    return "[" + ";".join(_XB[x] for x in b) + "]"
+
+
 EXC_CODE = {None: 0, "IndexError": 1, "ScrapliPrivilegeError": 2}
 
 
@@ -405,16 +487,62 @@ UNI = ["\u00e9", "\u00fc", "\u00df", "\u03a9", "\u0436", "\u4e2d", "\u6587", "\u
 PUNCT = list("-_./=,'\"()+*!?;")
 
 
+# multi-byte characters by UTF-8 width (none of their bytes is a blank, a control or a prompt character)
+WIDE = {2: "\u00e9\u00fc\u00df\u03a9\u0436\u00f1", 3: "\u4e2d\u6587\u20ac", 4: "\U0001d518\U0001f600"}
+LONG_CHARS = [257, 600, 1000, 1023, 1024, 1025, 1500, 2048, 4097]
+LONG_FLAVOURS = ["ascii", "ascii", "ascii", "all2", "all3", "all4", "sprinkled", "head", "tail", "words"]
+LONG_WORDS = ["Gr\u00fc\u00dfe", "aus", "K\u00f6ln", "\u043e\u043f\u0438\u0441\u0430\u043d\u0438\u0435", "\u63a5\u53e3", "uplink", "to", "core",
+              "na\u00efve", "co\u00fbt", "10.0.0.1", "\u20ac42", "rack-7", "\U0001f600"]
+
+
+def gen_long(rng, n=None, flavour=None):
+    """a very long line: n characters; pure ASCII or with multi-byte characters (all of one width, sprinkled, only the
+    first / the last character, or words) so that character count and encoded length differ by every factor up to 4"""
+    n = n or rng.choice(LONG_CHARS)
+    flavour = flavour or rng.choice(LONG_FLAVOURS)
+    ab = "abcdefghij0123456789 "
+    if flavour in ("all2", "all3", "all4"):
+        n = min(n, {"all2": 2048, "all3": 1400, "all4": 1025}[flavour])   # encoded length stays below ~4.2 KiB
+    if flavour == "ascii":
+        body = "".join(rng.choice(ab) for _ in range(n))
+    elif flavour in ("all2", "all3", "all4"):
+        cs = WIDE[int(flavour[3])]
+        body = "".join(rng.choice(cs) for _ in range(n))
+    elif flavour == "sprinkled":
+        cs = WIDE[2] + WIDE[3] + WIDE[4]
+        body = "".join(rng.choice(cs) if rng.random() < 0.1 else rng.choice(ab) for _ in range(n))
+    elif flavour == "head":
+        body = rng.choice(WIDE[rng.choice([2, 3, 4])]) + "".join(rng.choice(ab) for _ in range(n - 1))
+    elif flavour == "tail":
+        body = "".join(rng.choice(ab) for _ in range(n - 1)) + rng.choice(WIDE[rng.choice([2, 3, 4])])
+    else:
+        ws = []
+        while sum(len(w) + 1 for w in ws) < n:
+            ws.append(rng.choice(LONG_WORDS))
+        body = " ".join(ws)
+    s = "description " + (body.strip() or "a")
+    if rng.random() < 0.15:
+        s += rng.choice([" ", "  ", "\t"])
+    return s
+
+
+def sized_line(nbytes, width, tag="d"):
+    """a line of exactly nbytes encoded bytes made of width-byte characters (ASCII padding at the front)"""
+    head = tag + " "
+    k = (nbytes - len(head)) // width
+    pad = nbytes - len(head) - k * width
+    cs = WIDE[width] if width > 1 else "x"
+    return head + "p" * pad + "".join(cs[i % len(cs)] for i in range(k))
+
+
 def gen_line(rng, trans):
     k = rng.random()
     if k < 0.06:
         return ""
     if k < 0.10:
         return rng.choice([" ", "  ", "\t", " \t "])
-    if k < 0.14:
-        n = rng.choice([257, 1000, 1024, 2048, 4097])
-        s = "".join(rng.choice("abcdefghij0123456789 ") for _ in range(n)).strip() or "a"
-        return "description " + s
+    if k < 0.15:
+        return gen_long(rng)
     toks = [rng.choice(WORDS) for _ in range(rng.randint(1, 5))]
     if rng.random() < 0.25:
         toks.insert(rng.randint(0, len(toks)), "".join(rng.choice(UNI) for _ in range(rng.randint(1, 4))))
@@ -449,6 +577,12 @@ def gen_op(rng, kind, trans, force=None):
     if name == "send_command":
         n = 1
     lines = [gen_line(rng, trans) for _ in range(n)]
+    if n >= 2 and rng.random() < 0.15:
+        # the same line more than once in one call (next to each other or apart): each occurrence must be written
+        i, j = rng.sample(range(n), 2)
+        lines[j] = lines[i]
+        if rng.random() < 0.3:
+            lines[(j + 1) % n] = lines[i]
     # markers
     mk = rng.random()
     vendor = VENDOR_ERRORS[kind]
@@ -573,6 +707,57 @@ def corpus():
     return out
 
 
+def size_sweep(rng, thorough):
+    """boundary shapes of the line length: encoded sizes around the powers of two x character widths 1..4, through
+    every way of handing lines over (list, multi-line string, file; commands and configs), both stacks"""
+    if thorough:
+        sizes = [s + d for s in (256, 512, 1024, 2048, 4096, 8192) for d in (-1, 0, 1)]
+        widths = [1, 2, 3, 4]
+        kinds = ["generic", "cisco_iosxe", "juniper_junos", "cisco_nxos"]
+    else:
+        kinds = ["cisco_iosxe"]
+    if thorough:
+        lines = [sized_line(n, w) for n in sizes for w in widths]
+    else:
+        pairs = [(300, 3), (1025, 2), (1025, 4), (2049, 3), (4097, 2), (4097, 4),
+                 (rng.choice([513, 1023, 1024, 2047, 2048, 4095, 4096, 8193]), rng.choice([2, 3, 4]))]
+        lines = [sized_line(n, w) for n, w in pairs]
+    out = []
+    for ki, kind in enumerate(kinds):
+        for si, stack in enumerate(("sync", "async")):
+            rot = (ki * 2 + si) * 5 % len(lines)
+            ls = lines[rot:] + lines[:rot]
+            names = GENERIC_OPS if kind == "generic" else ["send_commands", "send_configs", "send_config", "send_configs_from_file",
+                                                           "send_commands_from_file", "send_command"]
+            if si:
+                names = names[2:] + names[:2]
+            # groups of at most 2 (quick) or 3 lines / ~12 KiB, handed to the op kinds in turn; at most 6 ops per connection
+            groups, cur = [], []
+            for l in ls:
+                if cur and (len(cur) >= (3 if thorough else 2) or sum(len(x.encode("utf-8")) for x in cur + [l]) > 12000):
+                    groups.append(cur)
+                    cur = []
+                cur.append(l)
+            groups.append(cur)
+            ops, j = [], 0
+            while groups:
+                name = names[j % len(names)]
+                part = groups.pop(0)
+                if name == "send_command" and len(part) > 1:
+                    groups.insert(0, part[1:])
+                    part = part[:1]
+                op = {"op": name, "lines": list(part), "outs": ["ok %d" % i for i in range(len(part))], "fwc": None, "stop": bool(j % 2),
+                      "eager": False, "priv": ""}
+                if name in ("send_config", "send_commands_from_file", "send_configs_from_file"):
+                    op["text"] = "\n".join(part) + ("\n" if j % 2 else "")
+                ops.append(op)
+                j += 1
+                if len(ops) == 6 or not groups:
+                    out.append({"kind": kind, "stack": stack, "policy": ["whole"], "ops": ops})
+                    ops = []
+    return out
+
+
 STRADDLE = {"kind": "cisco_iosxe", "stack": "sync", "policy": ["whole"], "ops": [
     {"op": "send_config", "text": "line one\nline two", "lines": [], "outs": ["first", "second"], "fwc": "first\nsecond",
      "stop": False, "eager": False, "priv": ""}]}
@@ -630,6 +815,24 @@ def minimise(scn, k, workdir, sig):
     return best
 
 
+def balanced_order(weights, jobs):
+    """a permutation of the case indices and a shard size such that consecutive shards of that size have about equal weight"""
+    import heapq
+    n = len(weights)
+    k = max(1, min(jobs, (n + 39) // 40))
+    size = max(1, -(-n // k))
+    caps = [min(size, n - j * size) for j in range(k) if n - j * size > 0]
+    bins = [[] for _ in caps]
+    heap = [(0, j) for j in range(len(caps))]
+    heapq.heapify(heap)
+    for i in sorted(range(n), key=lambda i: (-weights[i], i)):
+        load, j = heapq.heappop(heap)
+        bins[j].append(i)
+        if len(bins[j]) < caps[j]:
+            heapq.heappush(heap, (load + weights[i], j))
+    return [i for b in bins for i in b], size
+
+
 def run(rep):
     from gen import gen_send
 
@@ -660,6 +863,8 @@ def run(rep):
         p = os.path.join(common.VERIF, f.get("replay", ""))
         if f.get("kind") == "fixed" and os.path.exists(p):
             scenarios.append(("finding:" + f["id"], json.load(open(p))["scenario"]))
+    for s in size_sweep(rng, thorough):
+        scenarios.append(("size-sweep", s))
     n_gen = 1500 if thorough else 260
     for _ in range(n_gen):
         scenarios.append(("gen", gen_scenario(rng, trans)))
@@ -672,8 +877,10 @@ def run(rep):
                 scenarios.append(("exhaustive", s))
     dist = {"by_stream": {}, "by_kind": {}, "by_op": {}, "by_stack": {}, "lines_hist": {}, "stop": 0, "eager": 0, "policy": {},
             "fwc_kind": {}, "first_failing_pos": {}, "aborts_seen": 0, "unicode_lines": 0, "blank_lines": 0, "long_lines": 0,
-            "nav_events": 0, "exceptions": {}}
+            "nav_events": 0, "exceptions": {}, "stalled_calls": 0,
+            "long_multibyte_lines": 0, "repeated_lines": 0, "adjacent_repeats": 0, "max_line_bytes": 0, "line_bytes_hist": {}}
     terms, meta, fails = [], [], []
+    t_impl = time.time()
     for stream, scn in scenarios:
         scn = jsonable(scn)
         try:
@@ -699,6 +906,15 @@ def run(rep):
             dist["unicode_lines"] += sum(1 for l in lines if any(ord(c) > 127 for c in l))
             dist["blank_lines"] += sum(1 for l in lines if not dev_key(l))
             dist["long_lines"] += sum(1 for l in lines if len(l) > 256)
+            keyed = [l for l in lines if dev_key(l)]
+            dist["repeated_lines"] += len(keyed) - len(set(keyed))
+            dist["adjacent_repeats"] += sum(1 for a, b in zip(lines, lines[1:]) if a == b and dev_key(a))
+            for l in lines:
+                nb = len(l.encode("utf-8"))
+                dist["long_multibyte_lines"] += nb > 1024 and nb != len(l)
+                dist["max_line_bytes"] = max(dist["max_line_bytes"], nb)
+                b = "0" if nb == 0 else "<=64" if nb <= 64 else "<=1024" if nb <= 1024 else "<=4096" if nb <= 4096 else ">4096"
+                dist["line_bytes_hist"][b] = dist["line_bytes_hist"].get(b, 0) + 1
             dist["nav_events"] += sum(1 for e in o["events"] if e[0] == "nav")
             if o["exc"]:
                 dist["exceptions"][o["exc"]] = dist["exceptions"].get(o["exc"], 0) + 1
@@ -709,8 +925,14 @@ def run(rep):
                 dist["aborts_seen"] += 1
             rep.case((kind, scn["stack"], json.dumps(op, sort_keys=True)), nontrivial=len(lines) > 1 or bool(o["exc"]))
             if o["starved"]:
-                rep.broken.append("harness: the driver read while the device had nothing to say (%s %s)" % (kind, op["op"]))
-                rep.notes.append(json.dumps({"scenario": scn, "op": k})[:2000])
+                # the call never came back; decided on what the device had received when the driver stalled
+                bad = oracle(kind, op, o) if stream != "malformed" else []
+                for sig, text in bad:
+                    fails.append((scn, k, sig, text))
+                if not bad:
+                    rep.broken.append("harness: the driver read while the device had nothing to say (%s %s)" % (kind, op["op"]))
+                    rep.notes.append(json.dumps({"scenario": scn, "op": k})[:2000])
+                dist["stalled_calls"] += 1
                 continue
             bad = oracle(kind, op, o) if stream != "malformed" or op.get("expect_exc") else []
             for sig, text in bad:
@@ -721,6 +943,7 @@ def run(rep):
                 rep.sample({"kind": kind, "stack": scn["stack"], "op": op["op"], "lines": [l[:60] for l in lines], "stop": op["stop"],
                             "eager": op["eager"], "fwc": op["fwc"], "priv": op.get("priv"), "flags": o["flags"],
                             "device_log": [(m, raw.decode("latin-1")[:60]) for m, raw, _, _ in o["log"]][:10]})
+    t_impl = time.time() - t_impl
     # known finding: a marker containing "\n" can match the merged output of send_config across the join
     try:
         o = run_connection(jsonable(STRADDLE), rep.workdir)[0]
@@ -733,14 +956,31 @@ def run(rep):
     except Exception as e:  # noqa
         rep.notes.append("straddle replay could not run: %r" % (e,))
     # 4. model on the same cases
-    badix, log = (None, "generated file missing") if not gen_ok else common.eval_cases(rep.workdir, "cases_c13", HEADER, terms, "chk", shard=150)
+    # (the cases are dealt out so that the parallel Coq shards carry the same weight: very long lines are expensive to read in)
+    t_model = time.time()
+    try:                                   # a multi-line text of many very long lines is one deep list literal for coqc
+        import resource
+        soft, hard = resource.getrlimit(resource.RLIMIT_STACK)
+        want = 1 << 30
+        if soft != resource.RLIM_INFINITY and soft < want:
+            resource.setrlimit(resource.RLIMIT_STACK, (want if hard == resource.RLIM_INFINITY else min(want, hard), hard))
+    except Exception:  # noqa
+        pass
+    order, shard = balanced_order([len(t) for t in terms], common.JOBS)
+    badix, log = (None, "generated file missing") if not gen_ok else common.eval_cases(
+        rep.workdir, "cases_c13", HEADER, [terms[i] for i in order], "chk", shard=shard)
+    if badix is not None:
+        badix = sorted(order[i] for i in badix)
+    rep.coverage["phase_wall_s"] = {"implementation_runs": round(t_impl, 1), "model_evaluation": round(time.time() - t_model, 1),
+                                    "case_text_bytes": sum(len(t) for t in terms)}
     rep.coverage["correspondence"] = {"suite": "send-delivery", "cases": len(terms), "distribution": dist,
                                       "model_disagreements": None if badix is None else len(badix),
                                       "oracle_failures": len(fails)}
     rep.coverage["generated_from"] = common.source_hashes(SOURCES)
     rep.coverage["generated"] = info
     rep.rule = ("ops = send_command(s)/send_config(s)/from-file on generic, network and the five core drivers, sync and asyncio, 1-3 ops per "
-                "connection over SimDevice; lines from a vocabulary + unicode + blanks + very long, failing positions sampled and (small lists) "
+                "connection over SimDevice; lines from a vocabulary + unicode + blanks + repeated lines + very long (ASCII and multi-byte of every "
+                "UTF-8 width, size sweep around powers of two), failing positions sampled and (small lists) "
                 "enumerated, marker sets default / str / list / empty string, stop_on_failed and eager on/off, all configuration levels incl. "
                 "sessions, 5 chunking policies; non-trivial = more than one line or an exception; distinct = (driver, stack, op)")
     seen = set()
@@ -751,6 +991,12 @@ def run(rep):
         if len(seen) > 6:
             break
         small = minimise(scn, k, rep.workdir, sig)
+        if small["ops"] != scn["ops"][:k + 1]:
+            try:                                   # say what the oracle says about the replayed (smaller) scenario
+                o2 = run_connection(small, rep.workdir)[-1]
+                text = next((t for sg, t in oracle(small["kind"], small["ops"][-1], o2) if sg == sig), text)
+            except Exception:  # noqa
+                pass
         rep.violation("%s %s %s: %s" % (scn["kind"], scn["stack"], scn["ops"][k]["op"], text),
                       {"suite": "send-delivery", "scenario": small, "op": len(small["ops"]) - 1, "signature": sig,
                        "rerun": "./check C13 --replay <this file>"}, signature=sig)
@@ -775,7 +1021,7 @@ def run(rep):
                     except Exception:  # noqa
                         continue
                     for kk, o in enumerate(obs):
-                        b = oracle(cand["kind"], cand["ops"][kk], o) if not o["starved"] else []
+                        b = oracle(cand["kind"], cand["ops"][kk], o)
                         if b:
                             rep.violation("%s %s %s: %s" % (cand["kind"], cand["stack"], cand["ops"][kk]["op"], b[0][1]),
                                           {"suite": "send-delivery", "scenario": cand, "op": kk, "signature": b[0][0],
@@ -789,7 +1035,8 @@ def run(rep):
 
 
 def neighbourhood(scn, k, rng):
-    """variations of a disagreeing op: every failing position, stop / eager toggled, the empty list"""
+    """variations of a disagreeing op: every failing position, stop / eager toggled, the empty list; then the lines themselves
+    varied (multi-byte characters, longer, longer with multi-byte characters, blank edges, repeated lines)"""
     op = scn["ops"][k]
     base = dict(scn, ops=scn["ops"][:k])
     lines = op_lines(op)
@@ -805,6 +1052,27 @@ def neighbourhood(scn, k, rng):
                 fix_eager(o2)
                 yield jsonable(dict(base, ops=base["ops"] + [o2]))
     yield jsonable(dict(base, ops=base["ops"] + [dict(op, op=name, lines=[], outs=[])]))
+    # the content dimension: the same call with each line made longer / multi-byte / blank-edged / repeated
+    ls = [l if dev_key(l) else "x" for l in lines] or ["x"]
+
+    def widen(l, w):                       # same number of characters, every 7th one a w-byte character
+        return "".join(WIDE[w][i % len(WIDE[w])] if (i % 7 == 3 and c not in " \t") else c for i, c in enumerate(l))
+
+    variants = [[widen(l, w) for l in ls] for w in (2, 3, 4)]
+    for size in (1100, 2100, 4200, 8300):
+        variants.append([l.rstrip() + " " + "y" * max(0, size - len(l)) for l in ls])
+        for w in (2, 3):
+            variants.append([l.rstrip() + " " + sized_line(max(8, size - len(l.encode("utf-8"))), w, "z") for l in ls])
+    variants.append([l + " " for l in ls])
+    variants.append([l + "\t " for l in ls])
+    variants.append(["  " + l for l in ls])
+    variants.append([l for l in ls for _ in (0, 1)])
+    variants.append(ls + [""] + ls)
+    for v in variants:
+        v = [l if dev_key(l) not in _transition_lines() else "x" + l for l in v]
+        o2 = {"op": name, "lines": v, "outs": [""] * len(v), "fwc": None if scn["kind"] != "generic" else err, "stop": False, "eager": False,
+              "priv": op.get("priv", "")}
+        yield jsonable(dict(base, ops=base["ops"] + [o2]))
 
 
 def replay(path):
@@ -822,7 +1090,12 @@ def replay(path):
         print("op %d: %s %s %s lines=%r stop=%s eager=%s priv=%r fwc=%r" % (
             k, scn["kind"], scn["stack"], op["op"], [l[:50] for l in op_lines(op)], op["stop"], op["eager"], op.get("priv"), op["fwc"]))
         print("   outcome: exc=%s flags=%s merged=%s belief %s -> %s" % (o["exc"], o["flags"], o["merged"], o["cur0"], o["cur"]))
-        print("   device log: %r" % [(m, raw, "nav" if nav else "") for m, raw, _, nav in o["log"]])
+        print("   device log: %r" % [(m, raw if len(raw) <= 80 else raw[:40] + b"...(%d bytes)..." % len(raw) + raw[-30:], "nav" if nav else "")
+                                     for m, raw, _, nav in o["log"]])
+        if o["starved"]:
+            print("   the call never came back: the driver reads while the device has nothing more to say (%s)" % (
+                "inside privilege navigation" if o["nav_starved"] else "%d bytes received outside navigation" % sum(
+                    len(x) for kk, x in o["events"] if kk == "w")))
         bad = oracle(scn["kind"], op, o)
         if r.get("signature") == "merged-marker-straddle" and o["merged"] and o["merged"][0] is False and op["fwc"] in o["merged"][1]:
             bad.append(("merged-marker-straddle", "merged output contains the marker but failed=False"))
@@ -849,7 +1122,15 @@ MANIFEST = {
             "platform and twin read from the AST, structural facts of send_commands, empty-config behaviour) with obligations decided by vm_compute "
             "(C13_generated_abort_in_session instantiates abort_in_session on all 12 regenerated drivers); the model is evaluated by vm_compute on "
             "the same ops as the real drivers (sync and asyncio) over SimDevice and must agree on events, outcome, failed flags and believed level; "
-            "an independent oracle decides the property on the device's received bytes and executed-line log.",
+            "an independent oracle decides the property on the device's received bytes and executed-line log - also for a call that never "
+            "comes back (the driver reads while the causal, echoing device has answered everything it received): what the device has received "
+            "by then must be the wire image of the lines, otherwise the line that reached it altered / cut short / without its return is the "
+            "failing input (signatures delivery-altered, delivery-cut-short, return-missing, delivery-stalled). Line shapes: vocabulary lines, "
+            "unicode, blanks and blank edges, the same line several times in one call, very long lines up to ~8 KiB whose character count and "
+            "encoded length differ (all characters of UTF-8 width 2, 3 or 4, sprinkled, only the first / last character, words), and a sweep of "
+            "encoded sizes around the powers of two 256..8192 x character widths through list, multi-line string and file variants on both stacks; "
+            "a model/implementation disagreement is searched along failing positions, flags AND line content (longer, multi-byte, both, blank "
+            "edges, repeated lines).",
     "note": "Proved on the model; the runtime is observed (partial): privilege navigation is abstracted to one event per acquire_priv call (its "
             "content is C04's subject; observed by wrapping acquire_priv on the driver instance, and checked device-side to consist of vendor transitions only), "
             "the channel's echo/prompt reading is C01/C02's subject (the device output per line is an arbitrary function in the theorems and the observed "
@@ -857,6 +1138,10 @@ MANIFEST = {
             "Strings are modelled as their UTF-8 encodings (str.splitlines / `in` on valid UTF-8), confronted with the real str operations by the correspondence run. "
             "Generated lines avoid prompt-terminating characters, line terminators inside list elements, and vendor transition commands "
             "(the property's proviso that only the driver changes the device's mode); eager mode is run with unsplit reads and a non-blank last line. "
+            "Very long and multi-byte lines go through the same modelled path (one transport.write per channel.write: EW line, EW return), so they are "
+            "covered by the model and the theorems (which quantify over all byte lists), not oracle-only; a call that stalls is decided by the oracle "
+            "alone (the model has no outcome for it) and a stall inside privilege navigation or after everything was delivered is reported as a harness "
+            "failure without input (C01-C04's subject). "
             "Unknown privilege level names (malformed stream) are model-vs-implementation only. Trusted: Coq kernel + vm_compute, gen/gen_send.py "
             "(AST reading of _abort_config / send_commands), SimDevice and the scripted transports.",
     "technique": "Coq proofs by induction over the line list (loop invariant of the all-but-last loop with break, splitlines scanner invariant, infix/join lemma) "
